@@ -78,6 +78,8 @@ def excName : Exc → String
   | .value => "ValueError"
   | .jsonDecode => "JSONDecodeError"
   | .recursion => "RecursionError"
+  | .validation => "ValidationError"
+  | .connectionRefused => "ConnectionRefusedError"
   | .other t => t
 
 def excOfName : String → Exc
@@ -91,6 +93,8 @@ def excOfName : String → Exc
   | "ValueError" => .value
   | "JSONDecodeError" => .jsonDecode
   | "RecursionError" => .recursion
+  | "ValidationError" => .validation
+  | "ConnectionRefusedError" => .connectionRefused
   | t => .other t
 
 def encPy {α} (f : α → J) : Py α → J
